@@ -488,6 +488,16 @@ def runOp (bs : List Built) (line : String) : String :=
     match fromHex hex with
     | some b => if validUtf8 b then "1" else "0"
     | none => "bad-op hex"
+  -- C13: the model's prediction for the number of heap allocations inside run/process is the
+  -- constant 0 (every container is bounded: Props/C13); the op is only checked for shape.
+  | "ALLOC" :: "RUN" :: name :: wr :: _ :: [] =>
+    match findIface bs name with
+    | some _ => if wr.startsWith "hl" then "alloc=0" else "bad-op writer"
+    | none => "bad-op iface"
+  | "ALLOC" :: "PROC" :: name :: _ :: _ :: _ :: [] =>
+    match findIface bs name with
+    | some _ => "alloc=0"
+    | none => "bad-op iface"
   | _ => if line.startsWith "//" then "" else "bad-op unknown"
 
 partial def loop (h : IO.FS.Stream) (out : IO.FS.Stream) (bs : List Built) : IO Unit := do
